@@ -1733,6 +1733,17 @@ func (e *Exec) expand(c *Cmd, out *bufio.Writer) {
 			}
 			emit(fmt.Sprintf("%s close=report:%d", base, reports))
 			emit(fmt.Sprintf("%s close=report:%d", base, reports+5))
+			if c.str("faulttail", "0") == "1" {
+				// a cancellation at the very end together with a write fault that only the last flush
+				// meets (the file may hold all but its last 1 / 30 / 70 bytes)
+				for _, k := range []int{reports - 3, reports - 1, reports, reports + 5} {
+					for _, d := range []int{1, 30, 70} {
+						if k > 0 && full-d > 0 {
+							emit(fmt.Sprintf("%s close=report:%d fsize=%d full=%d", base, k, full-d, full))
+						}
+					}
+				}
+			}
 		}
 		emit(base)
 	case "parbuild":
